@@ -693,6 +693,7 @@ def extract(build, ir_text=None):
             raise ExtractError("Cap.modeFunctions: function %s is not in the slice" % mf)
     M.mode_tracked, M.mode_untracked, M.mask_tracked, M.assert_choices = [], [], [], []
     M.guard_tracked = []
+    M.setjmp_fns = set()
     M.param_slot = {}
     nodes = []            # (fn id, op tuple, succ node ids)   op: ('nop',) ('assert',m) ('libc',fn,name) ('call',g) ('havoc',why) ('ret',)
     entry_of = []
@@ -781,6 +782,8 @@ def extract(build, ir_text=None):
             for last in lasts:
                 nodes[last][2] = [] if nodes[last][1][0] == "ret" else list(targets)
         entry_of.append(first[f.blocks[0].label])
+        if name in M.setjmp_fns and (mode_ev or name in M.param_all):
+            raise ExtractError("%s calls setjmp and has a tracked variable (its value after a longjmp is not modelled)" % name)
         if again:                            # bookkeeping lists: one line per function, not per clone
             del M.mode_tracked[marks[0]:], M.mode_untracked[marks[1]:], M.mask_tracked[marks[2]:], M.assert_choices[marks[3]:]
     M.nodes = nodes
@@ -1177,6 +1180,9 @@ def _mask_track(M, f, pslot=None):
     return evs, set(id(i) for i, _ in sites)
 
 
+SETJMP = ("_setjmp", "setjmp", "__sigsetjmp", "sigsetjmp")
+
+
 def _events(M, fname, i, fn_ids, fdefs, blk=None, var_asserts=()):
     """Events of one IR instruction, in order."""
     evs = []
@@ -1210,6 +1216,11 @@ def _events(M, fname, i, fn_ids, fdefs, blk=None, var_asserts=()):
                 evs.append((("assert", i.const_args[0] & 0xFFFFFFFF), i.text))
         elif c in sens:
             evs.append((("libc", fname, c), i.text))
+        elif c in SETJMP:
+            # returns a second time after a longjmp from anything called later: by then the flag word may have grown, so nothing
+            # known before may be kept (`havoc`); tracked variables of such a function would be indeterminate (see extract)
+            M.setjmp_fns.add(fname)
+            evs.append((("havoc", "setjmp"), i.text))
         elif c.startswith("llvm.mem") and i.args and "@janet_vm to i8*" in i.args[0][0] and "getelementptr" not in i.args[0][0]:
             evs.append((("havoc", "whole-VM overwrite"), i.text))
         elif c in M.spawners:
@@ -1577,6 +1588,7 @@ def render(M, C, origin="current tree"):
     o.append("abbrev graph : Graph := ⟨%d, nodeAt, fnEntryAt, entryFns⟩\n" % len(M.nodes))
     o.append("-- functions whose open(2) flags / fopen mode variable is tracked: %s; untracked (mode 3 = both capabilities required): %s" % (M.mode_tracked, M.mode_untracked))
     o.append("-- parameter-keyed functions, cloned per constant argument: %s (reviewed: %s; assert-forwarding helpers found: %s)" % (M.param_consts, sorted(M.param_modes), sorted(M.param_auto)))
+    o.append("-- slice functions that call setjmp (the call is a havoc node): %s" % sorted(M.setjmp_fns))
     o.append("-- assert-mask variables tracked (bits %d.. of the word): %s; asserts on a select/phi of constants: %s" % (SHIFT, M.mask_tracked, M.assert_choices))
     o.append("-- guard variables (int locals assigned only constants, deciding a conditional branch; 8-bit fields from bit %d): %s" % (GUARD_SHIFT, M.guard_tracked))
     table("certK", "List Case", ["[" + ", ".join("(%d, %s)" % (m, _lnat_list(k)) for m, k in cs) + "]" for cs in C.K], "[]",
